@@ -14,7 +14,9 @@
 (*                    re-checks: takes / learns closed / parks again       *)
 (* Deviation = "close_one" is the rule of the pinned SyncQueue.Close       *)
 (* (Signal instead of Broadcast); it violates NoStranded and CloseReleases *)
-(* and is kept as the non-vacuity witness.                                 *)
+(* and is kept as the non-vacuity witness; so is "signal_if_first" (Push    *)
+(* signals only when the buffer was empty: a burst of pushes that lands     *)
+(* before the first woken consumer ran wakes one consumer for k items).     *)
 (***************************************************************************)
 EXTENDS Queue
 
@@ -36,7 +38,10 @@ SignalOne    == IF Parked = {} THEN {cst} ELSE {[cst EXCEPT ![c] = "woken"] : c 
 
 (* the possible effects of call a on the consumers (evaluated before the call) *)
 Notifies(a) ==
-  CASE a.op = "add" /\ Accepts(a)              -> IF kind = "syncq" THEN SignalOne ELSE BroadcastAll
+  CASE a.op = "add" /\ Accepts(a)              ->
+         IF kind = "syncq"
+         THEN (IF Deviation = "signal_if_first" /\ ~Empty THEN {cst} ELSE SignalOne)
+         ELSE BroadcastAll
     [] a.op = "close" /\ ~closed               -> IF Deviation = "close_one" THEN SignalOne ELSE BroadcastAll
     [] a.op = "tryclose" /\ ~closed /\ Empty   -> BroadcastAll
     [] OTHER                                   -> {cst}
